@@ -12,6 +12,8 @@ if [ $# -eq 0 ]; then
   /venv/bin/python "$here/tools/py2v_eq/main.py" --repo "${BIOM_REPO:-/repo}" --out "$here"; rc3=$?
   /venv/bin/python "$here/tools/py2v_uc/main.py" --repo "${BIOM_REPO:-/repo}" --out "$here"; rcuc=$?   # uc importer (tools/regen_uc.sh)
   [ "$rcuc" -ne 0 ] && exit "$rcuc"
+  /venv/bin/python "$here/tools/py2v_filt/main.py" --repo "${BIOM_REPO:-/repo}" --out "$here"; rcfilt=$?   # wrapper mode (tools/regen_filt.sh)
+  [ "$rcfilt" -ne 0 ] && exit "$rcfilt"
   /venv/bin/python "$here/tools/py2v_part/main.py" --repo "${BIOM_REPO:-/repo}" --out "$here"; rcpart=$?   # grouping mode (tools/regen_part.sh)
   [ "$rcpart" -ne 0 ] && exit "$rcpart"
   /venv/bin/python "$here/tools/py2v_cat/main.py" --repo "${BIOM_REPO:-/repo}" --out "$here"; rccat=$?   # accumulator mode (tools/regen_cat.sh)
